@@ -3,9 +3,9 @@
    product of the pivots, the in-place routines write only the cells they are given, and
    _lubksb solves a.x = b for every size N given the decomposition invariant P.a = L.U.
    The ring is abstract: fields of plain numbers and the dual numbers (DualRing.v) are
-   instances.  The zero test [isz] looks at the VALUE only; where exactness of that test
-   matters it is an explicit hypothesis (it is false of the dual numbers: see
-   LUExamples.solve_refuted). *)
+   instances.  The zero test [isz] (x == 0.0) looks at the VALUE only and decides units; the
+   "skip leading zeros" shortcut of _lubksb uses the separate test [skipz] (a plain-number
+   zero), which is exact: skipz x = true -> x = 0. *)
 From Coq Require Import ZArith List Bool Lia Ring Arith PeanoNat.
 From GTCV Require Import Num LU.
 Import ListNotations.
@@ -32,17 +32,19 @@ Proof. unfold vupd. intros H. destruct (Nat.eqb_spec i j); [contradiction|reflex
 Section Facts.
   Variables (A Wt : Type).
   Variables (rO rI : A) (radd rmul rsub : A -> A -> A) (ropp rinv : A -> A).
-  Variable isz : A -> bool.
+  Variables isz skipz : A -> bool.
   Variable ofZ : Z -> A.
   Variables (absw : A -> Wt) (w0 : Wt) (wgt wge : Wt -> Wt -> bool) (wmul : Wt -> Wt -> Wt)
             (wrecip : Wt -> res Wt).
   Hypothesis Rth : ring_theory rO rI radd rmul rsub ropp (@eq A).
   (* elements whose value is not zero are units *)
   Hypothesis Hinv : forall y, isz y = false -> rmul y (rinv y) = rI.
+  (* only true zeros are skipped by the shortcut of _lubksb *)
+  Hypothesis Hskip : forall y, skipz y = true -> y = rO.
 
   Add Ring Aring : Rth.
 
-  Notation RE := (ring_elt A Wt radd rmul rsub rinv isz ofZ absw w0 wgt wge wmul wrecip).
+  Notation RE := (ring_elt A Wt radd rmul rsub rinv isz skipz ofZ absw w0 wgt wge wmul wrecip).
   Infix "+" := radd. Infix "*" := rmul. Infix "-" := rsub.
   Notation "0" := rO. Notation "1" := rI.
 
@@ -211,62 +213,45 @@ Section Facts.
       | Some k => (k <= i)%nat /\ forall j, (j < k)%nat -> b j = 0
       end.
 
-    (* the zero test is exact on the right-hand sides not yet consumed, or the shortcut index
-       has already been set *)
-    Definition exact_or_set (i : nat) (b : nat -> A) (ii : option nat) : Prop :=
-      (forall j, (i <= j < n)%nat -> isz (b j) = true -> b j = 0) \/ (exists k, ii = Some k).
-
     Lemma fwd_step_spec (b : nat -> A) ii i :
-      (i < n)%nat -> fwd_inv i b ii -> exact_or_set i b ii ->
+      (i < n)%nat -> fwd_inv i b ii ->
       exists ii', fwd_step RE lu idx (b, ii) i = Ok (fwd_spec_step b i, ii') /\
-                  fwd_inv (S i) (fwd_spec_step b i) ii' /\ exact_or_set (S i) (fwd_spec_step b i) ii'.
+                  fwd_inv (S i) (fwd_spec_step b i) ii'.
     Proof.
-      intros Hi Hinvt Hex. pose proof (Hge i Hi) as Hip. pose proof (Hidx i Hi) as Hip2.
-      assert (Hex' : forall ii', (forall j, (i <= j < n)%nat -> isz (b j) = true -> b j = 0) ->
-                                 exact_or_set (S i) (fwd_spec_step b i) ii').
-      { intros ii' Hz. left. intros j Hj Ej. unfold fwd_spec_step in *.
-        rewrite vupd_other in * by lia.
-        destruct (Nat.eq_dec (idx i) j) as [<-|Hne].
-        - rewrite vupd_same in *. apply Hz; [lia|exact Ej].
-        - rewrite vupd_other in * by lia. apply Hz; [lia|exact Ej]. }
+      intros Hi Hinvt. pose proof (Hge i Hi) as Hip.
       unfold fwd_step, fwd_spec_step. cbn [E ring_elt].
       set (b1 := vupd b (idx i) (b i)).
       assert (Hb1 : forall j, (j < i)%nat -> b1 j = b j).
       { intros j Hj. unfold b1. apply vupd_other. lia. }
       destruct ii as [k|].
       - destruct Hinvt as [Hk Hz]. rewrite red_sub_ring. cbn [bind].
-        exists (Some k). split; [|split].
+        exists (Some k). split.
         + do 2 f_equal. f_equal.
           rewrite (bsum_split _ k i) by lia.
           rewrite bsum_zero; [ring|]. intros j Hj. rewrite Hb1 by lia. rewrite Hz by lia. ring.
         + split; [lia|]. intros j Hj. rewrite vupd_other by lia. rewrite Hb1 by lia. apply Hz. lia.
-        + right. eauto.
       - simpl in Hinvt.
         assert (Hs : bsum (fun j => lu i j * b1 j) i = 0).
         { apply bsum_zero. intros j Hj. rewrite Hb1 by lia. rewrite Hinvt by lia. ring. }
-        eexists. split; [|split].
+        eexists. split.
         + rewrite Hs. replace (b (idx i) - 0) with (b (idx i)) by ring. reflexivity.
         + rewrite Hs. replace (b (idx i) - 0) with (b (idx i)) by ring.
-          simpl e_isz. destruct (isz (b (idx i))) eqn:Ez.
-          * destruct Hex as [Hex|[k Hk]]; [|discriminate].
-            intros j Hj. destruct (Nat.eq_dec j i) as [->|Hne].
-            -- rewrite vupd_same. apply Hex; [lia|exact Ez].
+          simpl e_skip. destruct (skipz (b (idx i))) eqn:Ez.
+          * intros j Hj. destruct (Nat.eq_dec j i) as [->|Hne].
+            -- rewrite vupd_same. apply Hskip. exact Ez.
             -- rewrite vupd_other by lia. rewrite Hb1 by lia. apply Hinvt. lia.
           * split; [lia|]. intros j Hj. rewrite vupd_other by lia. rewrite Hb1 by lia. apply Hinvt. lia.
-        + simpl e_isz. destruct (isz (b (idx i))) eqn:Ez.
-          * destruct Hex as [Hex|[k Hk]]; [apply Hex'; exact Hex|discriminate].
-          * right. eauto.
     Qed.
 
     Lemma fwd_loop_spec len : forall i0 (b : nat -> A) ii,
-      (i0 + len <= n)%nat -> fwd_inv i0 b ii -> exact_or_set i0 b ii ->
+      (i0 + len <= n)%nat -> fwd_inv i0 b ii ->
       exists ii', foldM (fwd_step RE lu idx) (seq i0 len) (b, ii)
                   = Ok (fold_left fwd_spec_step (seq i0 len) b, ii').
     Proof.
-      induction len as [|len IH]; intros i0 b ii Hn Hi Hex.
+      induction len as [|len IH]; intros i0 b ii Hn Hi.
       - simpl. eauto.
-      - cbn [seq foldM fold_left]. destruct (fwd_step_spec b ii i0 ltac:(lia) Hi Hex) as (ii' & E & Hi' & Hex').
-        rewrite E. cbn [bind]. apply IH; [lia|assumption|assumption].
+      - cbn [seq foldM fold_left]. destruct (fwd_step_spec b ii i0 ltac:(lia) Hi) as (ii' & E & Hi').
+        rewrite E. cbn [bind]. apply IH; [lia|assumption].
     Qed.
 
     Definition fwd_spec (b : nat -> A) : nat -> A := fold_left fwd_spec_step (seq 0 n) b.
@@ -382,31 +367,19 @@ Section Facts.
           destruct (Nat.eqb_spec i (idx k)); [contradiction|]. exact H.
   Qed.
 
-  (* _lubksb solves the system, for every size, given the decomposition invariant; the zero
-     test of the "skip leading zeros" shortcut must be exact, or the first right-hand side in
-     pivot order must have a non-zero value *)
+  (* _lubksb solves the system, for every size and every right-hand side, given the
+     decomposition invariant (the "skip leading zeros" shortcut only skips true zeros: Hskip) *)
   Theorem lubksb_solves n (a lu : nat -> nat -> A) idx (b x : nat -> A) :
     decomposes n a lu idx ->
-    ((forall j, (j < n)%nat -> isz (b j) = true -> b j = 0) \/ ((0 < n)%nat /\ isz (b (idx 0%nat)) = false)) ->
     lubksb RE n lu idx b = Ok x ->
     forall i, (i < n)%nat -> bsum (fun j => a i j * x j) n = b i.
   Proof.
-    intros [Hidx Hdec] Hex H.
+    intros [Hidx Hdec] H.
     assert (Hge : forall t, (t < n)%nat -> (t <= idx t)%nat) by (intros t Ht; apply Hidx in Ht; lia).
     unfold lubksb in H.
     (* forward phase = its specification *)
     assert (Hf : exists ii', foldM (fwd_step RE lu idx) (seq 0 n) (b, None) = Ok (fwd_spec n lu idx b, ii')).
-    { destruct Hex as [Hz|[Hn Hnz]].
-      - apply (fwd_loop_spec n lu idx Hidx n 0 b None); [lia| |left; intros j Hj; apply Hz; lia]. simpl. intros; lia.
-      - destruct n as [|n']; [lia|].
-        unfold fwd_spec. simpl seq. simpl foldM at 1. simpl fold_left.
-        (* step 0 sets ii = Some 0 *)
-        unfold fwd_step at 1. simpl e_isz. rewrite Hnz.
-        assert (E0 : fwd_spec_step lu idx b 0 = vupd (vupd b (idx 0%nat) (b 0%nat)) 0 (b (idx 0%nat))).
-        { unfold fwd_spec_step. simpl. f_equal. ring. }
-        rewrite E0. cbn [bind].
-        apply (fwd_loop_spec (S n') lu idx Hidx n' 1 _ (Some 0%nat)); [lia| |right; eauto].
-        simpl. split; [lia|intros; lia]. }
+    { apply (fwd_loop_spec n lu idx Hidx n 0 b None); [lia|]. simpl. intros; lia. }
     destruct Hf as [ii' Hf]. unfold vecE in Hf, H. cbn [E ring_elt] in Hf, H. rewrite Hf in H. cbn [bind] in H.
     set (y := fwd_spec n lu idx b) in *.
     destruct (back_loop n lu n y x (Nat.le_refl n) H) as (Hd & Hrow & _).
@@ -442,11 +415,10 @@ Section Facts.
   (* la.solve: with the decomposition invariant of ludcmp as a hypothesis *)
   Theorem solve_partial n (a : nat -> nat -> A) (b x : nat -> A) :
     (forall lu idx par, ludcmp RE n a = Ok (lu, idx, par) -> decomposes n a lu idx) ->
-    (forall j, (j < n)%nat -> isz (b j) = true -> b j = 0) ->
     solve RE n a b = Ok x ->
     forall i, (i < n)%nat -> bsum (fun j => a i j * x j) n = b i.
   Proof.
-    intros Hdec Hz H. unfold solve in H.
+    intros Hdec H. unfold solve in H.
     destruct (ludcmp RE n a) as [[[lu idx] par]|e] eqn:Elu; [|discriminate]. cbn [bind] in H.
     eapply lubksb_solves; eauto.
   Qed.
@@ -454,11 +426,10 @@ Section Facts.
   (* LU.invab: every column of the result solves the system for that column of b *)
   Theorem invab_partial n m (a b y : nat -> nat -> A) :
     (forall lu idx par, ludcmp RE n a = Ok (lu, idx, par) -> decomposes n a lu idx) ->
-    (forall i j, (i < n)%nat -> (j < m)%nat -> isz (b i j) = true -> b i j = 0) ->
     invab RE n m a b = Ok y ->
     forall i j, (i < n)%nat -> (j < m)%nat -> bsum (fun k => a i k * y k j) n = b i j.
   Proof.
-    intros Hdec Hz H. unfold invab in H.
+    intros Hdec H. unfold invab in H.
     destruct (ludcmp RE n a) as [[[lu idx] par]|e] eqn:Elu; [|discriminate]. cbn [bind] in H.
     specialize (Hdec _ _ _ eq_refl).
     revert y H. generalize (fun (_ _ : nat) => e_of_Z RE 0) as y0. cbn [E ring_elt].
@@ -470,27 +441,23 @@ Section Facts.
     destruct (Nat.eq_dec j m) as [->|Hne].
     - rewrite (bsum_ext _ (fun k => a i k * col k)).
       2:{ intros k Hk. now rewrite Nat.eqb_refl. }
-      refine (lubksb_solves n a lu idx (fun i0 => b i0 m) col Hdec _ E2 i Hi).
-      left. intros t Ht. apply Hz; lia.
+      exact (lubksb_solves n a lu idx (fun i0 => b i0 m) col Hdec E2 i Hi).
     - rewrite (bsum_ext _ (fun k => a i k * y1 k j)).
       2:{ intros k Hk. destruct (Nat.eqb_spec j m); [contradiction|reflexivity]. }
       eapply IH; eauto; try lia.
   Qed.
 
-  (* la.inv: a . inv(a) = identity, given the decomposition invariant; 1 must not test as zero *)
+  (* la.inv: a . inv(a) = identity, given the decomposition invariant *)
   Theorem inv_partial n (a y : nat -> nat -> A) :
     (forall lu idx par, ludcmp RE n a = Ok (lu, idx, par) -> decomposes n a lu idx) ->
-    ofZ 0%Z = 0 -> ofZ 1%Z = 1 -> isz 1 = false ->
+    ofZ 0%Z = 0 -> ofZ 1%Z = 1 ->
     inv RE n a = Ok y ->
     forall i j, (i < n)%nat -> (j < n)%nat ->
                 bsum (fun k => a i k * y k j) n = if Nat.eqb i j then 1 else 0.
   Proof.
-    intros Hdec H0 H1 Hz1 H i j Hi Hj. unfold inv in H.
-    rewrite (invab_partial n n a (identity RE) y Hdec) with (i := i) (j := j); try assumption.
-    - unfold identity. simpl e_of_Z. destruct (Nat.eqb i j); assumption.
-    - intros i' j' _ _. unfold identity. simpl e_of_Z. destruct (Nat.eqb i' j').
-      + rewrite H1, Hz1. discriminate.
-      + now rewrite H0.
+    intros Hdec H0 H1 H i j Hi Hj. unfold inv in H.
+    rewrite (invab_partial n n a (identity RE) y Hdec H i j Hi Hj).
+    unfold identity. simpl e_of_Z. destruct (Nat.eqb i j); assumption.
   Qed.
 End Facts.
 
